@@ -114,8 +114,12 @@ func handleGetUser(params internal.HandlerFuncParams) ([]byte, error) {
 		return nil, errors.New("user not found")
 	}
 
+	// Everything the client chose (user name, categories, commands, key and channel patterns) is sent as
+	// a bulk string: a simple string cannot carry CR or LF and would break the framing of the reply.
+	bulk := func(s string) string { return fmt.Sprintf("\r\n$%d\r\n%s", len(s), s) }
+
 	// username,
-	res := fmt.Sprintf("*12\r\n+username\r\n*1\r\n+%s", user.Username)
+	res := fmt.Sprintf("*12\r\n+username\r\n*1%s", bulk(user.Username))
 
 	// flags
 	var flags []string
@@ -143,14 +147,14 @@ func handleGetUser(params internal.HandlerFuncParams) ([]byte, error) {
 			res = res + fmt.Sprintf("\r\n++@all")
 			continue
 		}
-		res = res + fmt.Sprintf("\r\n++@%s", category)
+		res = res + bulk("+@"+category)
 	}
 	for _, category := range user.ExcludedCategories {
 		if category == "*" {
 			res = res + fmt.Sprintf("\r\n+-@all")
 			continue
 		}
-		res = res + fmt.Sprintf("\r\n+-@%s", category)
+		res = res + bulk("-@"+category)
 	}
 
 	// commands
@@ -160,14 +164,14 @@ func handleGetUser(params internal.HandlerFuncParams) ([]byte, error) {
 			res = res + fmt.Sprintf("\r\n++all")
 			continue
 		}
-		res = res + fmt.Sprintf("\r\n++%s", command)
+		res = res + bulk("+"+command)
 	}
 	for _, command := range user.ExcludedCommands {
 		if command == "*" {
 			res = res + fmt.Sprintf("\r\n+-all")
 			continue
 		}
-		res = res + fmt.Sprintf("\r\n+-%s", command)
+		res = res + bulk("-"+command)
 	}
 
 	// keys
@@ -182,13 +186,13 @@ func handleGetUser(params internal.HandlerFuncParams) ([]byte, error) {
 		switch {
 		case slices.Contains(user.IncludedWriteKeys, key) && slices.Contains(user.IncludedReadKeys, key):
 			// Key is RW
-			res = res + fmt.Sprintf("\r\n+%s~%s", "%RW", key)
+			res = res + bulk("%RW~"+key)
 		case slices.Contains(user.IncludedWriteKeys, key):
 			// Keys is W-Only
-			res = res + fmt.Sprintf("\r\n+%s~%s", "%W", key)
+			res = res + bulk("%W~"+key)
 		case slices.Contains(user.IncludedReadKeys, key):
 			// Key is R-Only
-			res = res + fmt.Sprintf("\r\n+%s~%s", "%R", key)
+			res = res + bulk("%R~"+key)
 		}
 	}
 
@@ -196,10 +200,10 @@ func handleGetUser(params internal.HandlerFuncParams) ([]byte, error) {
 	res = res + fmt.Sprintf("\r\n+channels\r\n*%d",
 		len(user.IncludedPubSubChannels)+len(user.ExcludedPubSubChannels))
 	for _, channel := range user.IncludedPubSubChannels {
-		res = res + fmt.Sprintf("\r\n++&%s", channel)
+		res = res + bulk("+&"+channel)
 	}
 	for _, channel := range user.ExcludedPubSubChannels {
-		res = res + fmt.Sprintf("\r\n+-&%s", channel)
+		res = res + bulk("-&"+channel)
 	}
 
 	res += "\r\n"
@@ -258,7 +262,7 @@ func handleWhoAmI(params internal.HandlerFuncParams) ([]byte, error) {
 	defer acl.RUnlockUsers()
 
 	connectionInfo := acl.Connections[params.Connection]
-	return []byte(fmt.Sprintf("+%s\r\n", connectionInfo.User.Username)), nil
+	return []byte(fmt.Sprintf("$%d\r\n%s\r\n", len(connectionInfo.User.Username), connectionInfo.User.Username)), nil
 }
 
 func handleList(params internal.HandlerFuncParams) ([]byte, error) {
